@@ -262,15 +262,18 @@ pub fn finish(ctx: &Ctx, out: CheckOutput) -> i32 {
 	for (k, v) in &t.maxes {
 		println!("    max {k} = {v}");
 	}
+	if n_viol > 0 {
+		// a violation cut the run short; missing dimensions are a consequence, not a machinery failure
+		for m in machinery_err {
+			eprintln!("note: {m} (the run reported violations)");
+		}
+		return 1;
+	}
 	if !machinery_err.is_empty() {
 		for m in machinery_err {
 			eprintln!("MACHINERY ERROR: {m}");
 		}
 		return 2;
 	}
-	if n_viol > 0 {
-		1
-	} else {
-		0
-	}
+	0
 }
